@@ -117,6 +117,7 @@ type c29Run struct {
 	stopOnce  sync.Once
 	stopDone  chan struct{}
 	uniq      atomic.Int64
+	leaks     map[int]int // per kind: unsendable items that reached the appender (one witness per run)
 }
 
 func (run *c29Run) target(ch int, fenced bool) ca.AuthorityTarget {
@@ -208,6 +209,14 @@ func (p *c29Producer) genBatch(n int) *c29Batch {
 	ch := rng.IntN(run.cfg.Channels)
 	if rng.IntN(3) == 0 {
 		ch = 0 // hot channel
+	}
+	if rng.IntN(100) < 12 {
+		// A burst of sends whose deadline has already passed (a client that
+		// kept sending after its deadline), in front of the ordinary items.
+		for k := 1 + rng.IntN(3); k > 0; k-- {
+			u := run.uniq.Add(1)
+			b.Items = append(b.Items, c29Item{Kind: c29Expired, Ch: ch, From: fmt.Sprintf("u%d", rng.IntN(run.cfg.UIDs)), No: fmt.Sprintf("x%d", u), Payload: fmt.Sprintf("ch%d|expired|u%d", ch, u)})
+		}
 	}
 	for i := 0; i < size; i++ {
 		c := ch
@@ -395,7 +404,7 @@ func (run *c29Run) maybeStop() {
 // internal/infra/cluster adapters).
 var c29PortsHook func(*c29Model) (ca.Appender, ca.IdempotencyStore)
 
-func TestVerifC29(t *testing.T) { c29Main(t, "main", 110, 1000) }
+func TestVerifC29(t *testing.T) { c29Main(t, "main", 90, 900) }
 
 func c29Main(t *testing.T, unit string, quick, thorough int) {
 	r := verifkit.Start(t, "C29", unit)
@@ -412,7 +421,7 @@ func c29Main(t *testing.T, unit string, quick, thorough int) {
 		rng := r.Rand(29, uint64(i))
 		cfg := c29GenCfg(rng)
 		r.BeginCase(i, fmt.Sprintf("%+v", cfg))
-		run := &c29Run{r: r, idx: i, cfg: cfg, clock: &verifkit.Clock{}, stopDone: make(chan struct{})}
+		run := &c29Run{r: r, idx: i, cfg: cfg, clock: &verifkit.Clock{}, stopDone: make(chan struct{}), leaks: map[int]int{}}
 		ok := verifkit.Watchdog(240*time.Second, func() { run.execute(rng) })
 		if !ok {
 			r.Inconclusive(fmt.Sprintf("case %d: watchdog (240s) expired before the run finished; cfg=%+v", i, cfg))
@@ -912,7 +921,20 @@ func (run *c29Run) judgeItem(b *c29Batch, i int, it c29Item, res ca.SendBatchIte
 			return
 		}
 		if it.Payload != "" && seen[it.Payload] > 0 {
-			r.Violation("unsendable-item-reached-appender:"+c29KindNames[it.Kind], run.witness(b, i, nil))
+			// The item was reported as not sent (expired / cancelled / denied
+			// before submission) and yet was handed to the Appender port.
+			storedAt := uint64(0)
+			for _, rec := range logs[run.chans[it.Ch]] {
+				if rec.Payload == it.Payload {
+					storedAt = rec.Seq
+				}
+			}
+			run.leaks[it.Kind]++
+			if run.leaks[it.Kind] > 1 {
+				r.Count("unsendable_item_reached_appender.more_in_same_run", 1)
+				return
+			}
+			r.Violation("unsendable-item-reached-appender:"+c29KindNames[it.Kind], run.witness(b, i, map[string]any{"appender_calls_with_item": seen[it.Payload], "stored_at_seq": storedAt, "result_class": c29ErrClass(res)}))
 		}
 		okClass := true
 		switch it.Kind {
